@@ -253,6 +253,10 @@ class Encoder(Coder):
         :type state: CoderState
         :param reuse: Is this bitmap for reuse?
         """
+        if state.n_031031 == 0:
+            # The bits stand under a replication that was not executed: no bitmap is defined
+            return []
+
         # First get all the bit values for the bitmap
         if state.is_compressed:
             bitmap = state.decoded_values_all_subsets[0][state.idx_value - state.n_031031: state.idx_value]
